@@ -14,6 +14,7 @@ import (
 	"strings"
 	"sync"
 	"testing"
+	"time"
 
 	"github.com/ovh/kmip-go"
 	"github.com/ovh/kmip-go/payloads"
@@ -44,6 +45,7 @@ func bigOf(n int64) *big.Int { return big.NewInt(n) }
 func u32(n uint32) []byte { return []byte{byte(n >> 24), byte(n >> 16), byte(n >> 8), byte(n)} }
 
 func enumItem(tag int, v uint32) *refwire.Item { return &refwire.Item{Tag: tag, Type: 5, Raw: u32(v)} }
+
 // opaqueText: text carried in positions the library keeps opaque. A peer need not write UTF-8 (ISO 8859-1 here): in the binary encoding
 // the bytes of such a value are kept as they are; XML and JSON documents can only carry valid text.
 var curEnc string
@@ -253,10 +255,16 @@ func viaEncoding(enc string, bin []byte, dir int) (any, []byte, error) {
 	return target, re, err
 }
 
+// registeredOps: operations this application registers payload types for (the types of Activate, for want of others)
+var registeredOps = []kmip.Operation{0x80000451, 0x00000765, 0xFFFFFFF0}
+
 func TestDispatch(t *testing.T) {
 	casesPath := vh.Env("VERIF_CASES", "")
 	if casesPath == "" {
 		t.Skip("VERIF_CASES not set")
+	}
+	for _, op := range registeredOps {
+		kmip.RegisterOperationPayload[payloads.ActivateRequestPayload, payloads.ActivateResponsePayload](op)
 	}
 	cases, err := vh.ReadNDJSON[DispatchCase](casesPath)
 	if err != nil {
@@ -379,6 +387,34 @@ func TestDispatch(t *testing.T) {
 				}
 				if c.Expect == "opaque" && !bytes.Equal(re, bin) {
 					probs = append(probs, fmt.Sprintf("opaque-payload-not-preserved:0x%08X", uint32(code)))
+				}
+			case "opreg":
+				op := registeredOps[code-1]
+				var msg any
+				wantType := "*payloads.ActivateRequestPayload"
+				if c.Dir == 1 {
+					m := kmip.NewRequestMessage(kmip.V1_4, &payloads.ActivateRequestPayload{UniqueIdentifier: "id"})
+					m.BatchItem[0].Operation = op
+					msg = &m
+				} else {
+					wantType = "*payloads.ActivateResponsePayload"
+					msg = &kmip.ResponseMessage{Header: kmip.ResponseHeader{ProtocolVersion: kmip.V1_4, TimeStamp: time.Unix(1700000000, 0), BatchCount: 1},
+						BatchItem: []kmip.ResponseBatchItem{{Operation: op, ResponsePayload: &payloads.ActivateResponsePayload{UniqueIdentifier: "id"}}}}
+				}
+				bin := ttlv.MarshalTTLV(msg)
+				dec, _, err := viaEncoding(c.Enc, bin, c.Dir)
+				if err != nil {
+					probs = append(probs, fmt.Sprintf("decode-error:0x%08X:%v", uint32(op), err))
+					continue
+				}
+				var pl kmip.OperationPayload
+				if c.Dir == 1 {
+					pl = dec.(*kmip.RequestMessage).BatchItem[0].RequestPayload
+				} else {
+					pl = dec.(*kmip.ResponseMessage).BatchItem[0].ResponsePayload
+				}
+				if got := fmt.Sprintf("%T", pl); got != wantType {
+					probs = append(probs, fmt.Sprintf("wrong-type:0x%08X:got=%s:want=%s", uint32(op), got, wantType))
 				}
 			case "obj":
 				ot := kmip.ObjectType(uint32(code))
